@@ -222,6 +222,29 @@ M['deep_feel_if'] = decision('<literalExpression><text>' + ''.join(f'if x = {i} 
 M['many_rules'] = decision('<decisionTable hitPolicy="COLLECT" aggregation="COUNT"><input id="_i"><inputExpression><text>x</text></inputExpression></input><output id="_o"/>' + ''.join(f'<rule id="_u{i}"><inputEntry><text>&gt; {i}</text></inputEntry><outputEntry><text>{i}</text></outputEntry></rule>' for i in range(40)) + '</decisionTable>')
 M['chain_of_decisions'] = ''.join(f'''  <decision name="c{i}" id="_c{i}"><variable name="c{i}"/>{'<informationRequirement id="_q%d"><requiredDecision href="#_c%d"/></informationRequirement>' % (i, i - 1) if i else '<informationRequirement id="_q0"><requiredInput href="#_x"/></informationRequirement>'}<literalExpression><text>{'c%d + 1' % (i - 1) if i else 'x'}</text></literalExpression></decision>
 ''' for i in range(20))
+SVC = lambda inner: '<decisionService name="svc" id="_svc"><variable name="svc"/>' + inner + '</decisionService>\n'
+KR_SVC = '<knowledgeRequirement id="_kr"><requiredKnowledge href="#_svc"/></knowledgeRequirement>\n    '
+M['cycle_service_encapsulates_its_invoker'] = decision('<literalExpression><text>svc(x)</text></literalExpression>', extra=KR_SVC) + decision('<literalExpression><text>1</text></literalExpression>', name='o', k='o') + SVC('<outputDecision href="#_o"/><encapsulatedDecision href="#_d"/><inputData href="#_x"/>')
+M['cycle_service_outputs_its_invoker'] = decision('<literalExpression><text>svc(x)</text></literalExpression>', extra=KR_SVC) + SVC('<outputDecision href="#_d"/><inputData href="#_x"/>')
+M['cycle_service_input_decision_is_its_invoker'] = decision('<literalExpression><text>svc(x)</text></literalExpression>', extra=KR_SVC) + decision('<literalExpression><text>d</text></literalExpression>', name='o', k='o', extra='<informationRequirement id="_rd"><requiredDecision href="#_d"/></informationRequirement>\n    ') + SVC('<outputDecision href="#_o"/><inputDecision href="#_d"/><inputData href="#_x"/>')
+M['cycle_service_encapsulated_requires_invoker'] = decision('<literalExpression><text>svc(x)</text></literalExpression>', extra=KR_SVC) + decision('<literalExpression><text>e</text></literalExpression>', name='o', k='o', extra='<informationRequirement id="_re"><requiredDecision href="#_e"/></informationRequirement>\n    ') + decision('<literalExpression><text>d</text></literalExpression>', name='e', k='e', extra='<informationRequirement id="_rd"><requiredDecision href="#_d"/></informationRequirement>\n    ') + SVC('<outputDecision href="#_o"/><encapsulatedDecision href="#_e"/><inputData href="#_x"/>')
+def bkm(name, body, reqs):
+    return f'''  <businessKnowledgeModel name="{name}" id="_{name}"><variable name="{name}"/>
+    <encapsulatedLogic><formalParameter name="p"/><literalExpression><text>{body}</text></literalExpression></encapsulatedLogic>
+    {"".join('<knowledgeRequirement id="_%s_%s"><requiredKnowledge href="#_%s"/></knowledgeRequirement>' % (name, r, r) for r in reqs)}
+  </businessKnowledgeModel>
+'''
+M['cycle_three_knowledge_models'] = bkm('k1', 'k2(p)', ['k2']) + bkm('k2', 'k3(p)', ['k3']) + bkm('k3', 'k1(p)', ['k1']) + decision('<literalExpression><text>k1(x)</text></literalExpression>', extra='<knowledgeRequirement id="_kr"><requiredKnowledge href="#_k1"/></knowledgeRequirement>\n    ')
+M['cycle_two_sharing_a_node'] = bkm('k1', 'k2(p) + k3(p)', ['k2', 'k3']) + bkm('k2', 'k1(p)', ['k1']) + bkm('k3', 'k1(p)', ['k1']) + decision('<literalExpression><text>k1(x)</text></literalExpression>', extra='<knowledgeRequirement id="_kr"><requiredKnowledge href="#_k1"/></knowledgeRequirement>\n    ')
+M['cycle_four_decisions'] = ''.join(decision(f'<literalExpression><text>c{(i + 1) % 4}</text></literalExpression>', name=f'c{i}', k=f'c{i}', extra=f'<informationRequirement id="_q{i}"><requiredDecision href="#_c{(i + 1) % 4}"/></informationRequirement>\n    ') for i in range(4))
+M['cycle_decision_requires_itself_twice'] = decision('<literalExpression><text>d</text></literalExpression>', extra='<informationRequirement id="_q1"><requiredDecision href="#_d"/></informationRequirement><informationRequirement id="_q2"><requiredDecision href="#_d"/></informationRequirement>\n    ')
+M['cycle_item_definition_through_collection_component'] = '''  <itemDefinition name="t" id="_t"><itemComponent name="a" id="_ta"><typeRef>number</typeRef></itemComponent><itemComponent name="kids" id="_tk" isCollection="true"><typeRef>t</typeRef></itemComponent></itemDefinition>
+  <inputData name="y" id="_y"><variable typeRef="t" name="y"/></inputData>
+''' + decision('<literalExpression><text>y.kids[1].kids[1].a</text></literalExpression>', extra='<informationRequirement id="_ry"><requiredInput href="#_y"/></informationRequirement>\n    ')
+M['cycle_item_definitions_mutual'] = '''  <itemDefinition name="t" id="_t"><itemComponent name="u" id="_tu"><typeRef>u</typeRef></itemComponent></itemDefinition>
+  <itemDefinition name="u" id="_u"><itemComponent name="t" id="_ut"><typeRef>t</typeRef></itemComponent></itemDefinition>
+  <inputData name="y" id="_y"><variable typeRef="t" name="y"/></inputData>
+''' + decision('<literalExpression><text>y.u.t.u</text></literalExpression>', extra='<informationRequirement id="_ry"><requiredInput href="#_y"/></informationRequirement>\n    ')
 for name, body in M.items():
     with open(os.path.join(out, name + '.dmn'), 'w') as f:
         f.write(HEAD.format(name=name) + body + '</definitions>\n')
